@@ -20,7 +20,7 @@ SrcRec == [objs |-> {[d |-> Dg(n), sha |-> n, a |-> "sha256", h |-> n] : n \in D
            top |-> Dg(sc.want), tag |-> "", single |-> FALSE]
 ImpRec == [ok |-> phase = "done",
            objs |-> {[d |-> Dg(n), sha |-> n, a |-> "sha256", h |-> n] : n \in tgt.blobs \cup tgt.mans},
-           top |-> Dg(tgt.tag), want |-> Dg(sc.want)]
+           top |-> Dg(tgt.tag), allow |-> IF sc.want = "" THEN {} ELSE {Dg(sc.want)}, must |-> sc.want # ""]
 DkRec == [ok |-> phase = "done", found |-> tgt.tag = "dkman" /\ tgt.dk.cfg \in tgt.blobs /\ Range(tgt.dk.layers) \subseteq tgt.blobs,
           cfg |-> tgt.dk.cfg, layers |-> tgt.dk.layers]
 Terminal == phase \in {"done", "failed"}
